@@ -65,6 +65,9 @@ fn eval(path: &PathSpec, st: &StyleSpec) -> Result<Stat, Violation> {
         }
         Some(m) => m,
     };
+    if std::env::var("VERIF_DEBUG_DASH").is_ok() {
+        eprintln!("DASH model ambiguous={} pieces={}", model.ambiguous, model.pieces.len());
+    }
     if model.ambiguous {
         return Ok(Stat { hash: hash64(&got), ambiguous: true, asserted: 0 });
     }
@@ -73,10 +76,28 @@ fn eval(path: &PathSpec, st: &StyleSpec) -> Result<Stat, Violation> {
     if out.ops.iter().any(|o| matches!(o, raqote::PathOp::QuadTo(..) | raqote::PathOp::CubicTo(..))) {
         return Err(Violation::new("dash/curve-in-output", case, "dashed path contains curves".to_string()));
     }
-    let mut got_pieces: Vec<Polyline> = polylines_of(&out.ops).into_iter().filter(|p| norm_piece(p).len() >= 2).collect();
+    // dots (whole dash entries shorter than 1e-3) are matched by position, everything else
+    // vertex for vertex
+    let plen = |p: &Polyline| p.pts.windows(2).map(|w| dist(w[0], w[1])).sum::<f64>();
+    let is_dot = |p: &Polyline| !p.closed && plen(p) < 1e-3 && plen(p) > 0.0;
+    let all_out = polylines_of(&out.ops);
+    let mut got_dots: Vec<P2> = all_out.iter().filter(|p| is_dot(p)).map(|p| p.pts[0]).collect();
+    let want_dots: Vec<P2> = model.pieces.iter().filter(|p| is_dot(p)).map(|p| p.pts[0]).collect();
+    for d in &want_dots {
+        match got_dots.iter().position(|g| dist(*g, *d) < 1e-3) {
+            Some(i) => {
+                got_dots.remove(i);
+            }
+            None => return Err(Violation::new("dash/missing-dot", case, format!("the arc-length model has a dot (a whole dash entry shorter than 1e-3) at ({:.3},{:.3}) which the dasher did not produce", d.0, d.1))),
+        }
+    }
+    if let Some(d) = got_dots.first() {
+        return Err(Violation::new("dash/extra-dot", case, format!("the dasher produced a dot at ({:.3},{:.3}) that is not in the pattern", d.0, d.1)));
+    }
+    let mut got_pieces: Vec<Polyline> = all_out.into_iter().filter(|p| !is_dot(p) && norm_piece(p).len() >= 2).collect();
     let fmt = |ps: &[Polyline]| ps.iter().map(|p| format!("{}{:?}", if p.closed { "closed" } else { "open" }, norm_piece(p).iter().map(|q| ((q.0 * 1000.0).round() / 1000.0, (q.1 * 1000.0).round() / 1000.0)).collect::<Vec<_>>())).collect::<Vec<_>>().join("\n    ");
     let all_got = fmt(&got_pieces);
-    for want in &model.pieces {
+    for want in model.pieces.iter().filter(|p| !is_dot(p)) {
         match got_pieces.iter().position(|g| same_piece(g, want)) {
             Some(i) => {
                 got_pieces.remove(i);
@@ -109,6 +130,8 @@ fn arrays(q: bool) -> Vec<Vec<f32>> {
             }
         }
         v.extend([vec![2., 5.], vec![5., 2.], vec![200., 5.], vec![5., 200.], vec![2., 40.], vec![2.], vec![2., 5., 11.], vec![3., 7., 7., 3.], vec![3., 3., 7., 3., 7., 7.]]);
+        // dotted lines: 'on' entries far below any plausible epsilon (caps make them visible)
+        v.extend([vec![0.0002, 12.], vec![1e-4, 7., 3., 5.], vec![0., 9.]]);
         return v;
     }
     for a in vals {
@@ -138,6 +161,7 @@ fn arrays(q: bool) -> Vec<Vec<f32>> {
         v.push(vec![3., 7., 7., 3.]);
         v.push(vec![3., 3., 7., 3., 7., 7.]);
     }
+    v.extend([vec![0.0002, 12.], vec![1e-4, 7., 3., 5.], vec![0., 9.]]);
     v
 }
 
@@ -198,12 +222,20 @@ impl Check for C09 {
                     if d != a && d != b && d != *c {
                         paths.push(PathSpec::new(vec![POp::M(a.0, a.1), POp::L(b.0, b.1), POp::L(c.0, c.1), POp::L(d.0, d.1), POp::Z]));
                         paths.push(PathSpec::new(vec![POp::M(a.0, a.1), POp::L(b.0, b.1), POp::M(c.0, c.1), POp::L(d.0, d.1), POp::L(a.0, a.1), POp::Z]));
+                        // a subpath begun implicitly by a LineTo right after Close (it starts at the
+                        // closed subpath's first point, with the pattern restarted)
+                        paths.push(PathSpec::new(vec![POp::M(a.0, a.1), POp::L(b.0, b.1), POp::L(c.0, c.1), POp::Z, POp::L(d.0, d.1)]));
                     }
                 }
             }
             for (pi, path) in paths.iter().enumerate() {
                 for (ai, arr) in arrs.iter().enumerate() {
                     for &off in &offs {
+                        // a period that is not exactly representable makes the phase of a huge
+                        // offset depend on the rounding of the sum itself: not asserted
+                        if off.abs() > 1e5 && arr.iter().any(|e| e.fract() != 0.0) {
+                            continue;
+                        }
                         for &(w, cap, join) in &styles {
                             // thin the product: every style with the first offsets, one style otherwise
                             if q && (ai + pi) % 2 == 1 && (w, cap, join) != styles[0] {
